@@ -224,11 +224,26 @@ def rule_c17_columns(prog: Program, col: Collector) -> None:
         by_branch.setdefault(br, []).append((ev, a))
     col.check(len(by_branch) >= 1 and all(a is not None for _, a in st), ref.where(), ref.short, "set_values stores are of the form _values[rows, col]",
               construct="set_values-form", necessity="a store that is not a (rows, column) access of the table cannot be checked for column discipline")
+    def materialised(t) -> bool:
+        """A copy of the values argument taken before any write: np.array(values[, dtype]) / np.asarray(..).copy() / values.copy() / np.fromiter(values, ..)."""
+        if is_call_to(t, "numpy.array", "numpy.fromiter", "numpy.copy") and t[2] and t[2][0] == vals and dict(t[3]).get("copy") != ("const", False):
+            return True
+        return t[0] == "call" and t[1][0] == "attr" and t[1][2] == "copy" and (t[1][1] == vals or (is_call_to(t[1][1], "numpy.asarray", "numpy.array") and t[1][1][2][:1] == (vals,)))
     for br, items in by_branch.items():
         cols = {a[1]: ev for ev, a in items if a is not None}
-        okb = set(cols) == {U, L, K} and cols[U].value == vals and cols[L].value == vals and cols[K].value == ("const", 1)
+        src_vals = {cols[c].value for c in (U, L) if c in cols}
+        one_source = len(src_vals) == 1 and (vals in src_vals or all(materialised(v) for v in src_vals))
+        okb = set(cols) == {U, L, K} and one_source and cols[K].value == ("const", 1)
         col.check(okb, ref.where(items[0][0].node), ref.short, "set_values branch writes value to both bounds and flag 1",
                   construct="set_values-branch", necessity="bulk set must leave lower = upper = value and the known flag set")
+        # terms carry no time: `values` read for the second column is the same TERM as for the first, but if it is a view of this table it is no longer
+        # the same ARRAY once the first column has been written
+        if set(cols) >= {U, L} and vals in src_vals:
+            col.check(False, ref.where(items[0][0].node), ref.short,
+                      "both bound columns are written from ONE reading of the values argument (a copy taken before the first write)",
+                      construct="bulk-set-rereads-argument",
+                      necessity="the getters hand out views of the table: g.set_values(g.get_values()[::-1]) writes the upper column and then reads the argument again - through "
+                                "the column it has just changed - for the lower one; known coalitions end up with lower != upper (the F11 class, in the sibling setter)")
         rows = {a[0] for ev, a in items if a is not None}
         col.check(len(rows) == 1, ref.where(items[0][0].node), ref.short, "set_values branch writes the same rows in all three columns",
                   construct="set_values-rows", necessity="flag and bounds of different rows would disagree")
@@ -266,6 +281,13 @@ def _check_selection_helper(prog: Program, col: Collector, gm) -> None:
     vals, coals = ("param", pp[1]), ("param", pp[2])
     rets = list(ft.of_kind("return"))
     none_test = ("cmp", "is", coals, ("const", None))
+    # the function as one formula (early returns folded, helpers read through): vals if coalitions is None else vals[ids]
+    res = ft.result()
+    if res[0] == "ifexp" and res[1] == none_test:
+        class _R:       # the two alternatives in the shape the checks below expect
+            def __init__(self, value, pol):
+                self.value, self.ctx = value, (("if", none_test, pol, None),)
+        rets = [_R(res[2], True), _R(res[3], False)]
     whole = [r for r in rets if r.value == vals]
     picked = [r for r in rets if r.value[0] == "index" and r.value[1] == vals]
     ok_whole = len(whole) == 1 and [(f[1], f[2]) for f in whole[0].ctx if f[0] == "if"] == [(none_test, True)]
@@ -573,9 +595,18 @@ def rule_c17_writers(prog: Program, col: Collector) -> None:
     col.rule("G5", "only methods of IncompleteCooperativeGame write the value table", 1)
     gm = GameModel(prog)
     n = 0
+    # a private function of game.py that only methods of the class call (a method body moved to module level) belongs to the class
+    callers: dict[str, set] = {}
+    for r in prog.all_functions():
+        for c in ast.walk(r.node):
+            if isinstance(c, ast.Call) and isinstance(c.func, ast.Name):
+                callers.setdefault(c.func.id, set()).add((r.module.name, r.cls.name if r.cls is not None else None))
     for fref in prog.all_functions():
         ft = fterms(prog, fref)
         inside = fref.cls is not None and fref.cls.name == gm.cls.name and fref.module.name == gm.mod.name
+        if not inside and fref.cls is None and fref.module.name == gm.mod.name and fref.node.name.startswith("_") and prog.inlinable(fref) \
+                and callers.get(fref.node.name) and callers[fref.node.name] <= {(gm.mod.name, gm.cls.name)}:
+            inside = True
         for ev in list(ft.of_kind("store")) + list(ft.of_kind("aug")):
             tgt = ev.target
             touches = _chain_has_values(tgt)
